@@ -760,8 +760,8 @@ pub fn cfg_h4(r: u64, t: u8, tier: Tier) -> Cfg {
         k_budget: 0,
         deliver_sync: true,
         canon_certs: true,
-        max_states: tier.pick(3_000_000, 60_000_000),
-        wall_cap_s: tier.pick(40.0, 600.0),
+        max_states: tier.pick(3_000_000, 20_000_000),
+        wall_cap_s: tier.pick(40.0, 240.0),
     }
 }
 
@@ -777,8 +777,8 @@ pub fn cfg_h3c(crashed: usize, r: u64, t: u8, tier: Tier) -> Cfg {
         k_budget: 0,
         deliver_sync: true,
         canon_certs: true,
-        max_states: tier.pick(3_000_000, 60_000_000),
-        wall_cap_s: tier.pick(40.0, 600.0),
+        max_states: tier.pick(3_000_000, 20_000_000),
+        wall_cap_s: tier.pick(40.0, 240.0),
     }
 }
 
@@ -794,8 +794,8 @@ pub fn cfg_b4(byz: usize, r: u64, t: u8, k: u8, tier: Tier) -> Cfg {
         k_budget: k,
         deliver_sync: false,
         canon_certs: true,
-        max_states: tier.pick(3_000_000, 60_000_000),
-        wall_cap_s: tier.pick(40.0, 600.0),
+        max_states: tier.pick(3_000_000, 20_000_000),
+        wall_cap_s: tier.pick(40.0, 240.0),
     }
 }
 
